@@ -138,6 +138,19 @@ func runWithdraw(ctx *action.Context, tx action.RawTx) (bool, action.Response) {
 	if ctx.EvidenceStore.IsFrozenValidator(draw.ValidatorAddress) {
 		return false, action.Response{Log: evidence.ErrFrozenValidator.Error()}
 	}
+	// the withdrawable amount is kept per stake address, whatever validator the message names:
+	// the stake account of a frozen validator cannot withdraw by naming another address
+	frozenOwner := false
+	ctx.EvidenceStore.IterateSuspiciousValidators(func(lvh *evidence.LastValidatorHistory) bool {
+		validator, err := ctx.Validators.Get(lvh.Address)
+		if err == nil && validator.StakeAddress.Equal(draw.StakeAddress) {
+			frozenOwner = true
+		}
+		return frozenOwner
+	})
+	if frozenOwner {
+		return false, action.Response{Log: evidence.ErrFrozenValidator.Error()}
+	}
 
 	coin := draw.Stake.ToCoinWithBase(ctx.Currencies)
 
